@@ -13,6 +13,7 @@ MC_IdSets == {{3,5}}
 MC_MaxExtra == 0
 MC_SeedChoices == {5}
 MC_Faults == {"none","seed","fixed"}
+MC_SeedFaults == {"last","append"}
 MC_FixedAlphas == 0..6
 MC_KeyChoices == {3}
 MC_CoeffChoices == {5}
